@@ -16,7 +16,7 @@ RULE = ('algebra: (metric, configuration, 2..5 datasets some of them empty, a ra
         'histories: a generated sequence of new/add/merge(i<-j)/result operations over a pool of accumulators, each accumulator '
         'modelled by the list of rows it has absorbed, every result compared with the reference value of exactly that list; '
         'non-trivial = >= 3 states, or an empty state, or an add after a merge; distinct = distinct canonical case JSON'
-        '; also: one n-ary merge_states call over 2..40 states as list/tuple/iterator/generator with an operand-intact check')
+        '; also: data shifted by 2**24 for the mean / variance family (tolerance 1e-5 on shifted data), one n-ary merge_states call over 2..40 states as list/tuple/iterator/generator with an operand-intact check')
 ASSUMPTIONS = [
     'same input preconditions as C01 (explicit vocab, equal sampler seeds, non-negative MinMaxAndCount input)',
     'results are only read from accumulators that absorbed >= 1 row (several metrics define no value for no data)',
